@@ -89,3 +89,140 @@ func AllocaNew[T any](n Int) *T {
 	s := make([]T, n)
 	return &s[0]
 }
+
+// ---- <string.h> comparison / search functions with libc semantics: bytes compare as unsigned char; the str*
+// functions stop at the first NUL byte (so they are NOT a substitute for comparing Go strings, which may contain NUL).
+
+func byteAt(p unsafe.Pointer, i uintptr) byte { return *(*byte)(unsafe.Pointer(uintptr(p) + i)) }
+
+func Memcmp(s1, s2 unsafe.Pointer, n uintptr) Int {
+	for i := uintptr(0); i < n; i++ {
+		a, b := byteAt(s1, i), byteAt(s2, i)
+		if a != b {
+			return Int(a) - Int(b)
+		}
+	}
+	return 0
+}
+
+func Memchr(s unsafe.Pointer, c Int, n uintptr) unsafe.Pointer {
+	for i := uintptr(0); i < n; i++ {
+		if byteAt(s, i) == byte(c) {
+			return unsafe.Pointer(uintptr(s) + i)
+		}
+	}
+	return nil
+}
+
+func Strcmp(s1, s2 *Char) Int {
+	p, q := unsafe.Pointer(s1), unsafe.Pointer(s2)
+	for i := uintptr(0); ; i++ {
+		a, b := byteAt(p, i), byteAt(q, i)
+		if a != b {
+			return Int(a) - Int(b)
+		}
+		if a == 0 {
+			return 0
+		}
+	}
+}
+
+func Strncmp(s1, s2 *Char, n uintptr) Int {
+	p, q := unsafe.Pointer(s1), unsafe.Pointer(s2)
+	for i := uintptr(0); i < n; i++ {
+		a, b := byteAt(p, i), byteAt(q, i)
+		if a != b {
+			return Int(a) - Int(b)
+		}
+		if a == 0 {
+			return 0
+		}
+	}
+	return 0
+}
+
+func Strchr(s *Char, c Int) *Char {
+	p := unsafe.Pointer(s)
+	for i := uintptr(0); ; i++ {
+		b := byteAt(p, i)
+		if b == byte(c) {
+			return (*Char)(unsafe.Pointer(uintptr(p) + i))
+		}
+		if b == 0 {
+			return nil
+		}
+	}
+}
+
+func Strrchr(s *Char, c Int) *Char {
+	p := unsafe.Pointer(s)
+	var found *Char
+	for i := uintptr(0); ; i++ {
+		b := byteAt(p, i)
+		if b == byte(c) {
+			found = (*Char)(unsafe.Pointer(uintptr(p) + i))
+		}
+		if b == 0 {
+			return found
+		}
+	}
+}
+
+func Strstr(s1, s2 *Char) *Char {
+	n, m := Strlen(s1), Strlen(s2)
+	if m == 0 {
+		return s1
+	}
+	p, q := unsafe.Pointer(s1), unsafe.Pointer(s2)
+	for i := uintptr(0); i+m <= n; i++ {
+		if Memcmp(unsafe.Pointer(uintptr(p)+i), q, m) == 0 {
+			return (*Char)(unsafe.Pointer(uintptr(p) + i))
+		}
+	}
+	return nil
+}
+
+func Strcpy(dst, src *Char) *Char {
+	Memmove(unsafe.Pointer(dst), unsafe.Pointer(src), Strlen(src)+1)
+	return dst
+}
+
+func Strncpy(dst, src *Char, n uintptr) *Char {
+	l := Strlen(src)
+	if l >= n {
+		Memmove(unsafe.Pointer(dst), unsafe.Pointer(src), n)
+	} else {
+		Memmove(unsafe.Pointer(dst), unsafe.Pointer(src), l)
+		Memset(unsafe.Pointer(uintptr(unsafe.Pointer(dst))+l), 0, n-l)
+	}
+	return dst
+}
+
+func Strcat(dst, src *Char) *Char {
+	Strcpy((*Char)(unsafe.Pointer(uintptr(unsafe.Pointer(dst))+Strlen(dst))), src)
+	return dst
+}
+
+func Strncat(dst, src *Char, n uintptr) *Char {
+	l := Strlen(src)
+	if l > n {
+		l = n
+	}
+	d := uintptr(unsafe.Pointer(dst)) + Strlen(dst)
+	Memmove(unsafe.Pointer(d), unsafe.Pointer(src), l)
+	*(*byte)(unsafe.Pointer(d + l)) = 0
+	return dst
+}
+
+func Strndup(s *Char, n uintptr) *Char {
+	l := Strlen(s)
+	if l > n {
+		l = n
+	}
+	p := Malloc(l + 1)
+	Memmove(p, unsafe.Pointer(s), l)
+	*(*byte)(unsafe.Pointer(uintptr(p) + l)) = 0
+	return (*Char)(p)
+}
+
+func Strdup(s *Char) *Char { return Strndup(s, Strlen(s)) }
